@@ -61,6 +61,9 @@ type HistSys struct {
 	// Prefix is applied after Init: BFS from a non-initial state.
 	Prefix     []Op
 	PrefixName string
+	// ModelCanon, when set, contributes the reference model's own state (history variables) to the canonical form, so
+	// that states the implementation cannot tell apart but the model can are not merged.
+	ModelCanon func(h *HistSys, w *world.World) string
 }
 
 func (h *HistSys) pod(i int) world.PodSpec { return h.Class.pod(i) }
@@ -371,7 +374,13 @@ func BFS(h *HistSys, maxDepth int, deadline time.Time, oracle HistOracle, perTra
 		res.Violations = append(res.Violations, histViolation{nil, &Finding{Clause: "start-failed", Detail: err.Error()}})
 		return res
 	}
-	seen := map[string]bool{Canon(w0): true}
+	canon := func(w *world.World) string {
+		if h.ModelCanon != nil {
+			return Canon(w) + "##" + h.ModelCanon(h, w)
+		}
+		return Canon(w)
+	}
+	seen := map[string]bool{canon(w0): true}
 	frontier := [][]Op{{}}
 	res.States = 1
 	sigSeen := map[string]bool{}
@@ -391,7 +400,7 @@ func BFS(h *HistSys, maxDepth int, deadline time.Time, oracle HistOracle, perTra
 				if depth+1 > res.MaxDepth {
 					res.MaxDepth = depth + 1
 				}
-				c := Canon(w2) // before the oracle: oracles may drive w2 on (quiescence)
+				c := canon(w2) // before the oracle: oracles may drive w2 on (quiescence)
 				if oracle != nil {
 					if f := oracle(h, nh, w2, obs); f != nil {
 						sig := f.Clause + "|" + f.Culprit
